@@ -250,3 +250,60 @@ Definition spec (fn : Z) (i o : tree) : bool :=
          end
   | _ => false
   end.
+
+(* ------------------------------------------------------------------ vocabulary of the theorems (Props.v) *)
+Definition key_char (c : Z) : Prop := c <> 32 /\ c <> 61 /\ c <> 34 /\ c <> 39.
+Definition key_ok (key : str) : Prop := Forall key_char key.                       (* no space, '=', quotation mark *)
+Definition noquote (s : str) : Prop := Forall (fun c => c <> 34 /\ c <> 39) s.     (* any text without quotation marks *)
+Definition bare_ok (s : str) : Prop := Forall (fun c => c <> 32 /\ c <> 34 /\ c <> 39) s.
+
+(* one key=value token of the simple form: quoted with q (either quotation mark) or unquoted *)
+Inductive token := Quoted (key : str) (q : Z) (s : str) | Bare (key : str) (w : str).
+Definition tok_key (t : token) : str := match t with Quoted key _ _ => key | Bare key _ => key end.
+Definition tok_payload (t : token) : str := match t with Quoted _ _ s => s | Bare _ w => w end.
+Definition tok_str (t : token) : str :=
+  match t with Quoted key q s => key ++ 61 :: q :: s ++ [q] | Bare key w => key ++ 61 :: w end.
+Definition tok_wf (t : token) : Prop :=
+  match t with
+  | Quoted key q s => key_ok key /\ (q = 34 \/ q = 39) /\ noquote s
+  | Bare key w => key_ok key /\ bare_ok w
+  end.
+
+(* sequential assignment: what a list of tokens means *)
+Fixpoint run_toks (tab : list (str * nat)) (toks : list token) (st : list value) : out (list value) :=
+  match toks with
+  | [] => Ok st
+  | t :: r =>
+      match lookup (tok_key t) tab with
+      | None => Err
+      | Some i => bind (set_value st i (tok_payload t)) (fun st' => run_toks tab r st')
+      end
+  end.
+
+Definition shape (v : list value) : list nat := map kind_of v.
+Definition plain_vals (v : list value) : Prop := forall s, In (VS s) v -> forallb plain s = true.
+Definition ints_ok (v : list value) : Prop := forall z, In (VI z) v -> - 2 ^ 63 <= z < 2 ^ 63.
+
+(* facts about the generated tables that the theorems rely on; re-checked by vm_compute on every run *)
+Definition key_char_b (c : Z) : bool := negb (c =? 32) && negb (c =? 61) && negb (c =? 34) && negb (c =? 39).
+Definition table_ok (k : nat) : bool :=
+  negb (length (jtab k) =? 0)%nat &&
+  forallb (fun e => forallb key_char_b (fst e)) (mtab k) &&
+  forallb (fun e => forallb key_char_b (fst e)) (jtab k) &&
+  forallb (fun e => match lookup (fst e) (mtab k) with Some i => (i =? snd e)%nat | None => false end) (jtab k) &&
+  forallb (fun j => existsb (fun e => (snd e =? j)%nat) (jtab k)) (seq 0 (length (kinds k))) &&
+  forallb (fun e => (snd e <? length (kinds k))%nat) (mtab k).
+
+(* the tables of dsn.TagToField agree with the declared tags: every entry of the Multiref table is a declared
+   json name or alias of that member, every declared name is in the table, the OnlyJSON table holds exactly the
+   declared json names *)
+Definition decl_pairs (k : nat) : list (str * nat) :=
+  flat_map (fun e => match e with (i, name, aliases) => (name, i) :: map (fun a => (a, i)) aliases end) (decl k).
+Definition opt_nat_eqb (a : option nat) (b : nat) : bool := match a with Some x => (x =? b)%nat | None => false end.
+Definition tables_agree (k : nat) : bool :=
+  forallb (fun e => opt_nat_eqb (decl_lookup k (fst e)) (snd e)) (mtab k) &&
+  forallb (fun e => opt_nat_eqb (lookup (fst e) (mtab k)) (snd e)) (decl_pairs k) &&
+  (length (mtab k) =? length (decl_pairs k))%nat &&
+  forallb (fun e => match e with (i, name, _) => opt_nat_eqb (lookup name (jtab k)) i end) (decl k) &&
+  (length (jtab k) =? length (decl k))%nat &&
+  (length (decl k) =? length (kinds k))%nat.
